@@ -55,8 +55,16 @@ func zfChild(anchor ethtypes.Header, label string) ethtypes.Header {
 		ParentHash: anchor.Hash().Bytes(), UncleHash: gethtypes.EmptyUncleHash.Bytes(), Coinbase: bytes.Repeat([]byte{0x22}, 20),
 		Root: bytes.Repeat([]byte{0x44}, 32), TxHash: gethtypes.EmptyRootHash.Bytes(), ReceiptHash: gethtypes.EmptyRootHash.Bytes(), Bloom: make([]byte, 256),
 		Difficulty: big.NewInt(zfDifficulty(label)).Bytes(), Height: clienttypes.NewHeight(0, 101), GasLimit: 30000000, GasUsed: 15000000, Time: 1700000020,
-		Extra: []byte(label), MixDigest: make([]byte, 32), Nonce: 0, BaseFee: nil,
+		Extra: zfExtra(label), MixDigest: make([]byte, 32), Nonce: 0, BaseFee: nil,
 	}
+}
+
+// zfExtra: the label itself, except for the "extra32" child, whose extra data has exactly the protocol maximum of 32 bytes.
+func zfExtra(label string) []byte {
+	if label == "extra32" {
+		return append([]byte("extra32-"), bytes.Repeat([]byte{0x5a}, 24)...)
+	}
+	return []byte(label)
 }
 
 // zfDifficulty: the rule yields the minimum difficulty for the child; the "inflated" child claims more (and is genuinely
@@ -93,8 +101,20 @@ func TestMineZeroFeeFixtures(t *testing.T) {
 		t.Skip("set C10_MINE=1 to (re)generate testdata/zero_basefee.json")
 	}
 	anchor := zfAnchor()
-	var fx zfFixture
-	for _, label := range []string{"london", "legacy", "inflated"} {
+	var fx, old zfFixture
+	if bz, err := os.ReadFile(zfPath()); err == nil {
+		_ = json.Unmarshal(bz, &old)
+	}
+labels:
+	for _, label := range []string{"london", "legacy", "inflated", "extra32"} {
+		if os.Getenv("C10_MINE") != "all" { // keep the seals that are already stored
+			for _, s := range old.Seals {
+				if s.Label == label {
+					fx.Seals = append(fx.Seals, s)
+					continue labels
+				}
+			}
+		}
 		child := zfChild(anchor, label)
 		target := new(big.Int).Div(new(big.Int).Lsh(big.NewInt(1), 256), new(big.Int).SetBytes(child.Difficulty))
 		var found atomic.Bool
@@ -143,7 +163,7 @@ func zeroFeeCases(e *env) {
 	}
 	bz, err := os.ReadFile(zfPath())
 	var fx zfFixture
-	if err != nil || json.Unmarshal(bz, &fx) != nil || len(fx.Seals) != 3 {
+	if err != nil || json.Unmarshal(bz, &fx) != nil || len(fx.Seals) != 4 {
 		r.Inconclusive("%s: cannot read the mined seals: %v", cid, err)
 		return
 	}
@@ -176,7 +196,7 @@ func zeroFeeCases(e *env) {
 		return
 	}
 	prefix := []byte("clients/" + zeroFeeClient + "/")
-	try := func(label string, expectAccept bool) {
+	try := func(ctx sdk.Context, label string, expectAccept bool) {
 		h := children[label]
 		pre := e.n.DumpPrefix(ctx, "xibc", prefix)
 		uctx, write := ctx.CacheContext()
@@ -208,11 +228,16 @@ func zeroFeeCases(e *env) {
 			}
 		}
 	}
-	try("legacy", false)
+	// a London-sealed child whose extra data has exactly the maximum size (32 bytes) is a valid child; on a branch of its own
+	// (the context is dropped), so that the cases below start from the anchor as before
+	branch, _ := ctx.CacheContext()
+	try(branch, "extra32", true)
+	r.Count("pow/child_with_extra_data_of_exactly_32_bytes_submitted", 1)
+	try(ctx, "legacy", false)
 	r.Count("pow/zero_base_fee_legacy_sealed_child_submitted", 1)
 	// a child that claims MORE difficulty than the rule yields from its parent, genuinely sealed for the claim
-	try("inflated", false)
+	try(ctx, "inflated", false)
 	r.Count("pow/child_claiming_more_difficulty_than_the_rule_genuinely_sealed_submitted", 1)
-	try("london", true)
+	try(ctx, "london", true)
 	r.Count("pow/zero_base_fee_london_sealed_child_submitted", 1)
 }
